@@ -62,13 +62,16 @@ C2 == /\ pc = "c2"
                        [] OTHER -> WithFill(base, 3, ft)
            IN cells' = cells \o << c2, [Cell(3, S(2), 0) EXCEPT !.imp = 0] >>
       /\ pc' = "u1"
-(* universe 1, its middle cell possibly filled with U2 *)
+(* universe 1, its middle cell possibly filled with U2; optionally its third cell is split by the   *)
+(* container's own surface 1, so that one part is PATENTLY empty inside container 1 (same surface  *)
+(* with both signs after flattening) while it is not empty inside container 2                      *)
 U1 == /\ pc = "u1"
-      /\ \E nested \in BOOLEAN, ft \in OptTr :
+      /\ \E nested \in BOOLEAN, ft \in OptTr, split \in BOOLEAN :
            LET c12 == Cell(12, <<"*", S(11), S(-12)>>, 1)
-           IN cells' = cells \o << Cell(11, S(-11), 1),
-                                   IF nested THEN WithFill(c12, 2, ft) ELSE c12,
-                                   Cell(13, <<"*", S(11), S(12)>>, 1) >>
+               third == IF split
+                        THEN << Cell(13, <<"*", S(11), S(12), S(1)>>, 1), Cell(14, <<"*", S(11), S(12), S(-1)>>, 1) >>
+                        ELSE << Cell(13, <<"*", S(11), S(12)>>, 1) >>
+           IN cells' = cells \o << Cell(11, S(-11), 1), IF nested THEN WithFill(c12, 2, ft) ELSE c12 >> \o third
       /\ pc' = "u2"
 (* universe 2 (filler with its own TRCL) and universe 3 *)
 U2 == /\ pc = "u2"
